@@ -70,23 +70,30 @@ type c27Proxy struct {
 }
 
 type c27Pair struct {
-	p        *c27Proxy
-	cli, srv *net.TCPConn
-	once     sync.Once
-	onResp   atomic.Value // string: fault to apply to the next response frame
+	p      *c27Proxy
+	cli    *net.TCPConn
+	mu     sync.Mutex
+	srv    *net.TCPConn // guarded by mu
+	dead   bool         // guarded by mu
+	onResp atomic.Value // string: fault to apply to the next response frame
 }
 
 func (pr *c27Pair) kill() {
-	pr.once.Do(func() {
-		_ = pr.cli.SetLinger(0)
-		_ = pr.cli.Close()
-		if pr.srv != nil {
-			_ = pr.srv.Close()
-		}
-		pr.p.mu.Lock()
-		delete(pr.p.pairs, pr)
-		pr.p.mu.Unlock()
-	})
+	pr.mu.Lock()
+	if pr.dead {
+		pr.mu.Unlock()
+		return
+	}
+	pr.dead = true
+	_ = pr.cli.SetLinger(0)
+	_ = pr.cli.Close()
+	if pr.srv != nil {
+		_ = pr.srv.Close()
+	}
+	pr.mu.Unlock()
+	pr.p.mu.Lock()
+	delete(pr.p.pairs, pr)
+	pr.p.mu.Unlock()
 }
 
 // c27ListenReusePort opens a loopback listener with SO_REUSEPORT (the option the
@@ -131,6 +138,9 @@ func (p *c27Proxy) Arm(faults map[int64]string) {
 	}
 	p.reqSeen.Store(0)
 	p.mu.Unlock()
+	p.firedMu.Lock()
+	p.firedLog = nil
+	p.firedMu.Unlock()
 }
 
 // Heal removes every pending fault, refusal and stall.
@@ -281,21 +291,21 @@ func (pr *c27Pair) run() {
 	if err != nil {
 		return
 	}
-	pr.srv = sc.(*net.TCPConn)
-	// the pair may have been killed while dialing
-	p.mu.Lock()
-	_, alive := p.pairs[pr]
-	p.mu.Unlock()
-	if !alive {
-		_ = pr.srv.Close()
+	srv := sc.(*net.TCPConn)
+	pr.mu.Lock()
+	if pr.dead { // killed while dialing
+		pr.mu.Unlock()
+		_ = srv.Close()
 		return
 	}
+	pr.srv = srv
+	pr.mu.Unlock()
 	p.wg.Add(1)
 	go func() { // server -> client
 		defer p.wg.Done()
 		defer pr.kill()
 		for {
-			f, err := c27ReadFrame(pr.srv)
+			f, err := c27ReadFrame(srv)
 			if err != nil {
 				return
 			}
@@ -331,13 +341,13 @@ func (pr *c27Pair) run() {
 			return
 		case c27KillMidReq:
 			p.noteFired(kind, idx, len(f))
-			_, _ = pr.srv.Write(f[:len(f)/2])
+			_, _ = srv.Write(f[:len(f)/2])
 			return
 		case c27KillAfterReq, c27KillMidResp:
 			p.noteFired(kind, idx, len(f))
 			pr.onResp.Store(kind)
 		}
-		if _, err := pr.srv.Write(f); err != nil {
+		if _, err := srv.Write(f); err != nil {
 			return
 		}
 		p.ReqFwd.Add(1)
